@@ -122,7 +122,7 @@ def render_top(sysdef):
         tdef = TYPES[name] if isinstance(name, str) and name in TYPES else None
         tdef = sysdef.get("typedefs", {}).get(name, tdef)
         atoms, bonds = type_atoms(tdef)
-        out += ["[ moleculetype ]", f"{name} 1", "[ atoms ]"]
+        out += ["[ moleculetype ]", f"{name} {sysdef.get('mol_nrexcl', 1)}", "[ atoms ]"]
         for idx, resid, resname, an in atoms:
             out.append(f"{idx} P {resid - (1 if sysdef.get('resid_from_zero') else 0)} {resname} {an} {idx}" + atom_mass_columns(sysdef, idx)[0])
         if bonds:
